@@ -155,6 +155,12 @@ func (*Stream).rewriteGroupColumnRefs
   atreturn having-and-every-order-by-key-are-rewritten: $rewritten == ite(len(refs) == 0, 0, 1 + len(old(s.config.OrderBy)))
   loop 3 invariant $rewritten == 1 + $i && len($s) == len(old(s.config.OrderBy)) && len(refs) != 0
 
+// starting the consumer touches none of the four books: rows emitted before Start stay accounted for
+func (*Stream).Start
+  props C19 C09 C05
+  modifies s.lifecycle, heap(cep.Engine.ctx), heap(cep.Engine.cancel), heap(cep.Engine.started), heap(cep.Engine.wg)
+  ensures the-books-are-as-they-were: s.mInput.val == old(s.mInput.val) && s.mOutput.val == old(s.mOutput.val) && s.mInputDropped.val == old(s.mInputDropped.val) && s.mOutputDropped.val == old(s.mOutputDropped.val)
+
 // resetting the statistics resets the four books and nothing else: no window, buffer or pending row is touched
 func (*Stream).ResetStats
   props C19 C09
